@@ -31,6 +31,10 @@ def m_complex(z, degree=False):
     if isinstance(z, dict) and "real" in z and "imag" in z:
         return complex(z["real"], z["imag"])
     if isinstance(z, dict) and "abs" in z and "phase" in z:
+        if z["abs"] < 0:
+            # a negative magnitude is not a polar notation in the usual sense: whether a loader reads it as a phase
+            # shift by pi (the pinned one does) or rejects it is not what C17 states - no verdict, as in m_undictify
+            raise ModelRaises("negative magnitude")
         ph = z["phase"] * math.pi / 180 if degree else z["phase"]
         return Approx(z["abs"] * math.cos(ph), z["abs"] * math.sin(ph))
     raise ModelRaises("not a complex notation")
@@ -118,8 +122,23 @@ def _close(a, b, tol=MODEL_TOL):
     return True
 
 
+def _pynum(x):
+    """numpy scalars are numbers like any other: np.int64(5) is the number 5 (compared by value, exactly)"""
+    import numpy as np
+    if isinstance(x, np.bool_):
+        return bool(x)
+    if isinstance(x, np.integer):
+        return int(x)
+    if isinstance(x, np.floating):
+        return float(x)              # exact for float16/32/64
+    if isinstance(x, np.complexfloating):
+        return complex(x)
+    return x
+
+
 def _exact(a, b):
     """the same number in every real part, exactly (1 == 1.0 and 0.0 == -0.0 are accepted)"""
+    a, b = _pynum(a), _pynum(b)
     if isinstance(a, int) and isinstance(b, int):
         return a == b               # integers beyond 2**53 must not be compared through floats
     if isinstance(a, int) != isinstance(b, int) and not isinstance(a, complex) and not isinstance(b, complex):
@@ -160,11 +179,14 @@ def _same_doc(got, exp, path="$"):
     if isinstance(exp, bool) or exp is None or isinstance(exp, str):
         return None if (got == exp and type(got) == type(exp)) else f"{path}: {got!r} != {exp!r}"
     if isinstance(exp, (int, float, complex)):
+        got = _pynum(got)
         if isinstance(got, bool) or not isinstance(got, (int, float, complex)):
             return f"{path}: {got!r} is not the number {exp!r}"
         if isinstance(exp, Approx):
             return None if _close(got, exp) else f"{path}: {got!r} != {exp!r}"
         return None if _exact(got, exp) else f"{path}: {got!r} != {exp!r} (exactly)"
+    if _pynum(exp) is not exp:
+        return _same_doc(got, _pynum(exp), path)       # the description held a numpy scalar: the same rules by value
     return None if got == exp else f"{path}: {got!r} != {exp!r}"
 
 
